@@ -20,6 +20,76 @@ import (
 	"time"
 )
 
+var evFolded int
+var crossSolver map[string]interface{}
+
+// crossCheck re-runs up to 4 harnesses (seeded choice among those that finished within 60 s) with /usr/bin/z3
+// (4.8.12) instead of z3 5.1 and compares paths, discharged obligations and the set of sat obligations.
+func crossCheck(results []taskResult, specPaths map[*loadedGroup]string, seed, jobs int) map[string]interface{} {
+	var cands []taskResult
+	for _, r := range results {
+		if r.res.Error == "" && r.res.WallSec < 60 && r.res.Queries > 0 {
+			cands = append(cands, r)
+		}
+	}
+	if len(cands) == 0 {
+		return map[string]interface{}{"harnesses": 0}
+	}
+	rng := uint64(seed)*6364136223846793005 + 1442695040888963407
+	var pick []taskResult
+	for len(pick) < 4 && len(cands) > 0 {
+		rng = rng*6364136223846793005 + 1442695040888963407
+		i := int((rng >> 33) % uint64(len(cands)))
+		pick = append(pick, cands[i])
+		cands = append(cands[:i], cands[i+1:]...)
+	}
+	alt := map[*loadedGroup]string{}
+	for _, r := range pick {
+		lg := r.task.lg
+		if _, ok := alt[lg]; ok {
+			continue
+		}
+		b, _ := os.ReadFile(specPaths[lg])
+		var spec JobSpec
+		json.Unmarshal(b, &spec)
+		spec.Solver = "z3"
+		spec.Witnesses = 0
+		nb, _ := json.Marshal(spec)
+		p := strings.TrimSuffix(specPaths[lg], ".json") + "_z3old.json"
+		os.WriteFile(p, nb, 0o644)
+		alt[lg] = p
+	}
+	var tasks []task
+	for _, r := range pick {
+		tasks = append(tasks, r.task)
+	}
+	res2 := runTasks(tasks, func(lg *loadedGroup) string { return alt[lg] }, jobs, 20*time.Minute, nil)
+	disagree := []string{}
+	names := []string{}
+	for _, a := range pick {
+		names = append(names, a.task.name)
+		for _, b := range res2 {
+			if b.task.name != a.task.name || b.task.lg != a.task.lg {
+				continue
+			}
+			ids := func(hr *HarnessResult) string {
+				var x []string
+				for _, v := range hr.Violations {
+					x = append(x, v.ID)
+				}
+				sort.Strings(x)
+				return strings.Join(x, ";")
+			}
+			if b.res.Error != "" || a.res.Paths != b.res.Paths || a.res.Obligations != b.res.Obligations || ids(a.res) != ids(b.res) || len(b.res.Unknowns) > 0 {
+				disagree = append(disagree, fmt.Sprintf("%s: z3 5.1 paths=%d obl=%d sat=[%s]; z3 4.8.12 paths=%d obl=%d sat=[%s] err=%q unknown=%d", a.task.name,
+					a.res.Paths, a.res.Obligations, ids(a.res), b.res.Paths, b.res.Obligations, ids(b.res), firstLine(b.res.Error), len(b.res.Unknowns)))
+			}
+		}
+	}
+	fmt.Printf("== cross-solver (z3 4.8.12) on %v: %d disagreement(s)\n", names, len(disagree))
+	return map[string]interface{}{"second_solver": "z3 4.8.12 (/usr/bin/z3)", "harnesses": names, "disagreements": disagree}
+}
+
 var nativeAssertRe = regexp.MustCompile(`VERIF-REPLAY: REPRODUCED assert "(native: [^"]*)"`)
 
 var verifDir = func() string {
@@ -332,6 +402,7 @@ func cmdCheck(args []string) int {
 	trace := fs.Bool("trace", false, "trace instructions in workers")
 	smtlog := fs.String("smtlog", "", "prefix for per-harness SMT logs")
 	tmo := fs.Int("timeout", 0, "per-harness timeout in seconds (overrides the property's)")
+	cross := fs.Bool("cross-solver", false, "re-run a sample of harnesses on z3 4.8.12 and compare (always on in thorough)")
 	var prop string
 	if len(args) > 0 && !strings.HasPrefix(args[0], "-") {
 		prop = args[0]
@@ -448,6 +519,10 @@ func cmdCheck(args []string) int {
 		fmt.Printf("  %-5s %-44s paths=%-5d obl=%-5d queries=%-5d %.1fs  %s\n", r.task.lg.g.Name, hr.Name, hr.Paths, hr.Obligations, hr.Queries, hr.WallSec, status)
 	})
 
+	// thorough: re-run a seeded sample of the cheaper harnesses on a second solver (z3 4.8.12) and compare verdicts
+	if tierN == 1 || *cross {
+		crossSolver = crossCheck(results, specPaths, seed, *jobs)
+	}
 	return finishCheck(ps, *tier, seed, t0, work, lgs, results, *noReplay, re != nil)
 }
 
@@ -482,6 +557,7 @@ func finishCheck(ps *PropSpec, tier string, seed int, t0 time.Time, work string,
 		paths, steps, forks, obligations, obq, queries, sat, unsat, unknown, core, pool, merged int
 		solver                                                                                 float64
 	}{}
+	folded := 0
 	funcs := map[string]int{}
 	reach := map[string]int{}
 	stubs := map[string]bool{}
@@ -492,6 +568,7 @@ func finishCheck(ps *PropSpec, tier string, seed int, t0 time.Time, work string,
 		agg.steps += hr.Steps
 		agg.forks += hr.Forks
 		agg.obligations += hr.Obligations
+		folded += hr.Folded
 		agg.obq += hr.ObQueries
 		agg.queries += hr.Queries
 		agg.sat += hr.Sat
@@ -533,6 +610,13 @@ func finishCheck(ps *PropSpec, tier string, seed int, t0 time.Time, work string,
 		}
 	}
 
+	if crossSolver != nil {
+		if d, ok := crossSolver["disagreements"].([]string); ok {
+			for _, x := range d {
+				inconclusive = append(inconclusive, "solvers disagree: "+x)
+			}
+		}
+	}
 	// ---- native replay of counterexamples and of path witnesses ----
 	replayDir := filepath.Join(verifDir, "replays", prop)
 	os.MkdirAll(replayDir, 0o755)
@@ -713,6 +797,7 @@ func finishCheck(ps *PropSpec, tier string, seed int, t0 time.Time, work string,
 	// ---- evidence ----
 	wall := time.Since(t0).Seconds()
 	if !partial {
+		evFolded = folded
 		writeEvidence(ps, tier, seed, wall, results, viols, validated, len(wits), funcs, reach, stubs, assumes, inconclusive, engineErr, agg.paths, agg.forks, agg.obligations, agg.obq, agg.queries, agg.sat, agg.unsat, agg.unknown, agg.core, agg.pool, agg.merged, agg.solver, len(violLines), len(knownLines))
 	}
 	fmt.Printf("== %s tier=%s: harnesses=%d paths=%d obligations=%d (in %d batches) queries=%d solver=%.1fs witnesses validated=%d/%d wall=%.1fs exit=%d\n",
@@ -790,9 +875,10 @@ func writeEvidence(ps *PropSpec, tier string, seed int, wall float64, results []
 		"transitions":                   forks + paths,
 		"traces_validated_against_impl": validated,
 		"samples":                       samples,
-		"obligations":                   obligations + len(viols),
-		"discharged":                    obligations,
+		"obligations":                   obligations + len(viols) + evFolded,
+		"discharged":                    obligations + evFolded,
 		"obligation_batches":            obq,
+		"obligations_decided_by_simplifier": evFolded,
 		"sat_obligations":               len(viols),
 		"harnesses":                     len(results),
 		"per_harness":                   perHarness,
@@ -800,6 +886,7 @@ func writeEvidence(ps *PropSpec, tier string, seed int, wall float64, results []
 		"stubs":                         keys(stubs),
 		"solver":                        map[string]interface{}{"name": "z3 5.1.0 (z3-new)", "queries": queries, "sat": sat, "unsat": unsat, "unknown": unknown, "unsat_core_cache_hits": core, "model_pool_hits": pool, "merged_pure_calls": merged, "seconds": round2(solverSec), "per_query_timeout_s": 60},
 		"reach_labels":                  reach,
+		"cross_solver":                  crossSolver,
 		"witnesses_sampled":             witTotal,
 		"inconclusive":                  inconclusive,
 		"engine_errors":                 engineErr,
